@@ -130,7 +130,20 @@ pub struct Stats {
   pub samples: Vec<Value>,
   pub found_path: Option<Vec<PEvent>>,
   pub unconfirmed_divergences: usize,
+  /// programs whose exploration was abandoned because the process' resident set exceeded the memory cap
+  pub rss_capped_programs: usize,
 }
+
+/// Resident set size of this process in GiB (0 when /proc is unavailable).
+pub fn rss_gib() -> f64 {
+  std::fs::read_to_string("/proc/self/statm").ok()
+    .and_then(|s| s.split_whitespace().nth(1).and_then(|p| p.parse::<f64>().ok()))
+    .map(|pages| pages * 4096.0 / (1u64 << 30) as f64).unwrap_or(0.0)
+}
+
+/// Memory cap of the explorer (GiB, env VERIF_RSS_GB): beyond it the programs in flight are abandoned (reported as
+/// cut, never as a verdict) so that the operating system does not kill the check.
+pub fn rss_cap_gib() -> f64 { std::env::var("VERIF_RSS_GB").ok().and_then(|v| v.parse().ok()).unwrap_or(20.0) }
 
 impl Stats {
   pub fn merge(&mut self, o: &Stats) {
@@ -147,6 +160,7 @@ impl Stats {
     for s in &o.samples { if self.samples.len() < 12 { self.samples.push(s.clone()); } }
     if self.found_path.is_none() { self.found_path = o.found_path.clone(); }
     self.unconfirmed_divergences += o.unconfirmed_divergences;
+    self.rss_capped_programs += o.rss_capped_programs;
   }
 }
 
@@ -416,8 +430,12 @@ pub fn explore_program(prog: &Prog, class: Class, cfg: &HistCfg, stats: &mut Sta
   frontier.push_back(NodeRec { path: vec![], digests: vec![], cells: [None; MAX_RES], fail: [false; MAX_RES], dirty: 0, known: vec![], crashes_used: 0, last_ticks: 0, p2: 0 });
   let mut depth_capped = false;
   let mut state_capped = false;
+  let rss_cap = rss_cap_gib();
+  let mut iter = 0usize;
   while let Some(node) = frontier.pop_front() {
     if Instant::now() > deadline { stats.wall_capped = true; break; }
+    iter += 1;
+    if iter % 512 == 0 && rss_gib() > rss_cap { state_capped = true; stats.rss_capped_programs += 1; break; }
     let staged = cfg.stage1 > 0;
     let in_stage1 = staged && node.p2 == 0 && node.path.len() < cfg.stage1;
     if !staged && node.path.len() >= cfg.depth { depth_capped = true; continue; }
@@ -583,6 +601,7 @@ pub fn fill_evidence(rep: &mut Report, cfg: &HistCfg, stats: &Stats, programs: &
   rep.set("programs_cut_at_depth_bound", json!(stats.depth_capped_programs));
   rep.set("programs_cut_at_state_cap", json!(stats.state_capped_programs));
   rep.set("wall_cap_hit", json!(stats.wall_capped));
+  rep.set("programs_abandoned_at_memory_cap", json!(stats.rss_capped_programs));
   rep.set("exhaustive", json!(exhaustive));
   rep.set("exhaustive_note", json!(if exhaustive { "every program of the enumerated space was explored to its fixed point (no new states)" } else { "complete up to the stated history depth for every program listed as cut at the depth bound; programs beyond a wall/state cap are not fully covered" }));
   rep.set("distinct_outcomes", json!({
